@@ -274,8 +274,26 @@ type storeDrv struct {
 	expPath string // where ExportToJSON writes (always on the OS file system)
 	drift   []map[string]any
 	steps   int
+	tieThetas map[int]bool
 	verBase int // offset into the payload cycle (differs per history)
 	pad     int // bytes appended to every description (plan.Pad)
+}
+
+// orderFaithful keeps a quantised confidence on the side of every threshold of the run
+// (tieThetas, 1e-9 units) on which the real float is: 0.7999999999999999 rounds onto 0.8 but
+// compares below it.  Only the concurrent driver sets tieThetas (the sequential one skips
+// such ambiguous points).
+func (d *storeDrv) orderFaithful(c float64, cq int) int {
+	for th := range d.tieThetas {
+		thf := float64(th) / 1e9
+		if cq == th && c != thf {
+			if c < thf {
+				return th - 1
+			}
+			return th + 1
+		}
+	}
+	return cq
 }
 
 func quantConf(c float64) (int, bool) {
@@ -529,6 +547,7 @@ func (d *storeDrv) scanRes(rs []detection.ScanResult) []map[string]any {
 			}
 		}
 		cq, _ := quantConf(r.Confidence)
+		cq = d.orderFaithful(r.Confidence, cq)
 		out = append(out, map[string]any{"id": r.SignatureID, "ver": ver, "conf": cq})
 	}
 	return out
